@@ -323,7 +323,7 @@ def R3_predicates(ctx):
 def R3b_parser(ctx):
     """C04.R3 RoadClassParser: unknown class name => Err"""
     F = ctx.F
-    ctx.rule("C04.R3b", "RoadClassParser::read_query: a class name missing from the mapping is an Err (ok_or_else + `?`/collect into Result)", floor=1)
+    ctx.rule("C04.R3b", "RoadClassParser::read_query: a class name missing from the mapping is an Err (ok_or_else + `?`/collect into Result); Ok(None) only when the field is absent", floor=2)
     import core as _core
     found = False
     bad = []
@@ -342,6 +342,24 @@ def R3b_parser(ctx):
                 found = True
             else:
                 bad.append(c)
+    # "no restriction" (Ok(None)) is what an *absent* road_classes field means; a field that is present — even an empty list,
+    # which permits no edge at all — is Some(set) or an Err (round 7: `"road_classes": []` read as no filter, found twice)
+    rq = F.need(CFG + "road_class::road_class_parser::RoadClassParser::read_query")
+    none_rows = absent_rows = 0
+    try:
+        for r in table(rq, max_paths=100000):
+            if r.end != "return":
+                continue
+            v = ok_value(r)
+            if v is None or not (v[0] == "agg" and v[1] == "std::option::Option" and v[2] == "None"):
+                continue
+            none_rows += 1
+            if any(d[0] == "call" and d[1].split("{")[0].endswith("Value::get") and lbl == "None" for d, lbl in r.sel.items()):
+                absent_rows += 1
+        okn = none_rows >= 1 and none_rows == absent_rows
+    except TooManyPaths:
+        okn = False
+    ctx.check(okn, "no-filter-only-when-absent", "read_query returns Ok(None) (no restriction) on %d path(s) where the road_classes field is present" % (none_rows - absent_rows), rq.where(), detail="Ok(None) <=> query.get(road_classes) is None")
     found = found and not bad
     ctx.check(found, "unknown-class=>Err", "no closure in read_query turns a failed mapping lookup into an Err", F.need(CFG + "road_class::road_class_parser::RoadClassParser::read_query").where())
 
